@@ -489,9 +489,57 @@ def c16_extra(tier, seed, ctx):
     return dict({"violations": violations, "evaluations": evals, "distinct_nontrivial": max(2, len(distinct)), "samples": samples, "ok": not violations}, **bench)
 
 
+# ------------------------------------------------------------------------------------------------
+# C14: the real binary's info lines (with their time / nps tokens) for `go depth N`
+
+INFO_RE = re.compile(r"^info depth (\d+)( seldepth \d+)? nodes \d+( time \d+)?( nps \d+)? score (cp -?\d+|mate -?\d+) pv( [a-h][1-8][a-h][1-8][qrbn]?)*$")
+
+
+def c14_extra(tier, seed, ctx):
+    violations, samples, queries, evals = [], [], [], 0
+    distinct = set()
+    fens = SEEDS[:4] if tier == "quick" else SEEDS
+    depths = [1, 2, 3, 4] if tier == "quick" else [1, 2, 3, 4, 5]
+    for fen in fens:
+        eng = Engine(ctx["engine"])
+        eng.send(f"position fen {fen}")
+        for d in depths:
+            idx = len(eng.lines())
+            eng.send(f"go depth {d}")
+            i = eng.wait_for(lambda l: l.startswith("bestmove"), 30.0, idx)
+            evals += 1
+            distinct.add((fen, d))
+            if i is None:
+                violations.append(viol("C14", "no-bestmove", f"fen=[{fen}] go depth {d}"))
+                break
+            infos = [l for _, l in eng.lines()[idx:i] if l.startswith("info")]
+            got = []
+            for l in infos:
+                norm = " ".join(l.split())
+                if not INFO_RE.match(norm):
+                    violations.append(viol("C14", "info-syntax", f"fen=[{fen}] go depth {d}: [{l}]"))
+                m = re.match(r"info depth (\d+)", norm)
+                got.append(int(m.group(1)) if m else -1)
+                pv = norm.split(" pv", 1)[1].split() if " pv" in norm else []
+                # every prefix of the PV must be a legal line: ask for the last move after the earlier ones
+                for k in range(len(pv)):
+                    queries.append((fen, " ".join(pv[:k]), pv[k]))
+            if got != list(range(1, d + 1)):
+                violations.append(viol("C14", "depth-limit-not-completed", f"fen=[{fen}] go depth {d}: reported depths {got}"))
+            if len(samples) < 3 and infos:
+                samples.append(f"fen=[{fen}] go depth {d} -> {infos[-1]}")
+            time.sleep(0.03)
+        eng.send("quit")
+        eng.close()
+    for l in legal_queries(ctx["driver"], queries):
+        violations.append(viol("C14", "pv-not-legal", l))
+    return {"violations": violations, "evaluations": evals, "distinct_nontrivial": len(distinct), "samples": samples,
+            "pv_moves_checked": len(queries), "ok": not violations}
+
+
 if __name__ == "__main__":
     ctx = {"engine": "/verif/engine-target/release/rust_chess_engine", "driver": "/verif/lean/.lake/build/bin/driver"}
     which = sys.argv[1]
     tier = sys.argv[2] if len(sys.argv) > 2 else "quick"
-    r = {"c09": c09_extra, "c10": c10_extra, "c15": c15_extra, "c16": c16_extra}[which](tier, 1, ctx)
+    r = {"c09": c09_extra, "c10": c10_extra, "c14": c14_extra, "c15": c15_extra, "c16": c16_extra}[which](tier, 1, ctx)
     print(json.dumps({k: v for k, v in r.items()}, indent=1)[:6000])
